@@ -157,6 +157,8 @@ class Sys(e2.DevSys):
                 acts.append(("stop", name) if st.started else ("start", name))
                 if st.started:
                     acts.append(("bounce", name))  # graceful stop and start with no loop iteration in between
+                    if self.finite and not self.loss:
+                        acts.append(("stop-lost", name))  # graceful stop whose farewell datagrams are lost
                 for gap in (0.0, 0.5, 4.0):
                     acts.append(("crash-restart", name, gap))
                 if self.finite:
@@ -182,6 +184,13 @@ class Sys(e2.DevSys):
             st = self.stacks[act[1]]
             st.started = True
             st.prot.start()
+        elif act[0] == "stop-lost":
+            st = self.stacks[act[1]]
+            st.started = False
+            self.loss = True
+            self.last_end = max(self.last_end, now + 4 * C)
+            st.prot.stop()
+            self.loop.call_later(4 * C, self.loss_off)
         elif act[0] == "bounce":
             st = self.stacks[act[1]]
             st.prot.stop()
@@ -314,7 +323,8 @@ def restrict(thorough, cfg, devs, p, k):
             return True
         # quick: second disturbance within 1.25 s of the first, process events only, one choice of delays
         return cfg["frac"] == 0.0 and cfg["name"] in ("T1-finite", "T2-infinite-no-refresh") and p[0] - devs[-1][0] <= 1.25 and p[2][0] in (
-            "stop", "start", "crash-restart", "restart") and p[1] == "pre"
+            "stop", "start", "crash-restart", "restart") and p[1] == "pre" and (
+                devs[-1][2][0] != "stop-lost" or p[2][0] == "start")
     return False
 
 
